@@ -24,6 +24,7 @@ import (
 	"fmt"
 	"io"
 	"net"
+	"net/http"
 	"net/netip"
 	"os"
 	"regexp"
@@ -31,11 +32,13 @@ import (
 	"strconv"
 	"strings"
 	"sync"
+	"sync/atomic"
 	"syscall"
 	"testing"
 	"time"
 
 	"github.com/daeuniverse/dae/common"
+	componentdns "github.com/daeuniverse/dae/component/dns"
 	"github.com/daeuniverse/dae/config"
 	"github.com/daeuniverse/outbound/netproxy"
 	dnsmessage "github.com/miekg/dns"
@@ -60,6 +63,8 @@ type c07Slot struct {
 	ln   net.Listener
 }
 
+var c07ReplyDelay atomic.Int64
+
 type c07Farm struct {
 	mu    sync.Mutex
 	seen  []c07Seen
@@ -68,15 +73,29 @@ type c07Farm struct {
 }
 
 // answers of slot s for (name, qtype): 0..2 records, recognisable by slot and family.
-func c07SlotAnswers(slot int, name string, qt uint16) []netip.Addr {
+// The answer also identifies the transport it was asked over (udp, tcp, DoH path),
+// so a result shows which of several upstreams on one host:port answered.
+var c07ProtoClasses = []string{"udp", "tcp", "h:/a", "h:/b"}
+
+func c07ProtoIndex(proto string) int {
+	for i, p := range c07ProtoClasses {
+		if p == proto {
+			return i
+		}
+	}
+	return 9
+}
+
+func c07SlotAnswers(slot int, proto string, name string, qt uint16) []netip.Addr {
 	n := (len(c07NormName(name)) + slot) % 3
+	pi := c07ProtoIndex(proto)
 	var out []netip.Addr
 	for k := 1; k <= n; k++ {
 		switch qt {
 		case dnsmessage.TypeA:
-			out = append(out, netip.AddrFrom4([4]byte{10, byte(slot + 1), 0, byte(k)}))
+			out = append(out, netip.AddrFrom4([4]byte{10, byte(slot + 1), byte(pi), byte(k)}))
 		case dnsmessage.TypeAAAA:
-			out = append(out, netip.MustParseAddr(fmt.Sprintf("fd00:%x::%x", slot+1, k)))
+			out = append(out, netip.MustParseAddr(fmt.Sprintf("fd00:%x:%x::%x", slot+1, pi, k)))
 		}
 	}
 	return out
@@ -91,8 +110,11 @@ func (f *c07Farm) reply(slot int, proto string, wire []byte) []byte {
 	f.mu.Lock()
 	f.seen = append(f.seen, c07Seen{slot, proto, q.Name, q.Qtype})
 	f.mu.Unlock()
+	if d := time.Duration(c07ReplyDelay.Load()); d > 0 {
+		time.Sleep(d) // keeps concurrent lookups in flight together; never asserted on
+	}
 	resp := dnsmessage.Msg{MsgHdr: dnsmessage.MsgHdr{Id: req.Id, Response: true, RecursionAvailable: true}, Question: req.Question}
-	for _, a := range c07SlotAnswers(slot, q.Name, q.Qtype) {
+	for _, a := range c07SlotAnswers(slot, proto, q.Name, q.Qtype) {
 		h := dnsmessage.RR_Header{Name: q.Name, Rrtype: q.Qtype, Class: dnsmessage.ClassINET, Ttl: 60}
 		if a.Is4() {
 			resp.Answer = append(resp.Answer, &dnsmessage.A{Hdr: h, A: net.IP(a.AsSlice())})
@@ -121,9 +143,14 @@ func (f *c07Farm) serve(s *c07Slot) {
 			if err != nil {
 				return
 			}
-			if out := f.reply(s.idx, "udp", buf[:n]); out != nil {
-				_, _ = s.pc.WriteTo(out, from)
-			}
+			pkt := append([]byte(nil), buf[:n]...)
+			f.wg.Add(1)
+			go func() {
+				defer f.wg.Done()
+				if out := f.reply(s.idx, "udp", pkt); out != nil {
+					_, _ = s.pc.WriteTo(out, from)
+				}
+			}()
 		}
 	}()
 	go func() {
@@ -417,6 +444,38 @@ func c07AddrSet(ips []net.IPAddr) map[netip.Addr]int {
 	return m
 }
 
+// one generated upstream: a tag on a server slot, reached in a particular way.
+type c07Up struct {
+	Tag  string
+	Slot int
+	Kind string // udp | tcp | tcp+udp | h:/a | h:/b
+}
+
+func (u c07Up) admits(proto string) bool {
+	if u.Kind == "tcp+udp" {
+		return proto == "udp" || proto == "tcp"
+	}
+	return u.Kind == proto
+}
+
+func (u c07Up) protos() []string {
+	if u.Kind == "tcp+udp" {
+		return []string{"udp", "tcp"}
+	}
+	return []string{u.Kind}
+}
+
+type c07Lookup struct {
+	What   string
+	Net    c07Net
+	Host   string
+	Forced string // selector-chosen / named upstream ("" = request rules decide)
+	IPs    []net.IPAddr
+	Err    error
+	Base   int
+	Took   time.Duration
+}
+
 func TestC07_Router(t *testing.T) {
 	const unit = "C07.router"
 	if err := c07SoMarkPermitted(); err != nil {
@@ -428,19 +487,82 @@ func TestC07_Router(t *testing.T) {
 		t.Skipf("cannot start loopback DNS servers: %v", err)
 	}
 	defer func() { farm.stop() }()
+	// DoH upstreams go through the package's own seam (no TLS offline): the fake
+	// records the question under the slot of the target port and the URL path.
+	origSend := sendHTTPDNSFunc
+	defer func() { sendHTTPDNSFunc = origSend }()
+	sendHTTPDNSFunc = func(ctx context.Context, _ *http.Client, target string, upstream *componentdns.Upstream, data []byte) (*dnsmessage.Msg, error) {
+		ap, err := netip.ParseAddrPort(target)
+		if err != nil {
+			return nil, err
+		}
+		for _, s := range farm.slots {
+			if s.port == int(ap.Port()) {
+				out := farm.reply(s.idx, "h:"+upstream.Path, data)
+				if out == nil {
+					return nil, fmt.Errorf("c07 DoH fake: bad query")
+				}
+				var m dnsmessage.Msg
+				if err := m.Unpack(out); err != nil {
+					return nil, err
+				}
+				return &m, nil
+			}
+		}
+		return nil, fmt.Errorf("c07 DoH fake: no server on %s", target)
+	}
 	nets := c07Networks()
 	var totalLookups, totalInconclusive int
 
 	rapid.Check(t, func(t *rapid.T) {
-		// ---- program over the loopback servers
-		nUp := rapid.IntRange(1, nSlots).Draw(t, "nup")
+		// ---- upstreams: several may share one host:port and differ in scheme / path
+		nUp := rapid.IntRange(1, 6).Draw(t, "nup")
 		p := &c07Program{}
-		slotOf := map[string]int{}
+		ups := map[string]c07Up{}
+		used := map[string]bool{} // slot/proto already taken
+		share := rapid.IntRange(0, 2).Draw(t, "share") > 0
 		for i := 0; i < nUp; i++ {
-			s := farm.slots[i]
-			sch := rapid.SampledFrom([]string{"udp", "udp", "tcp", "tcp+udp", "udp+tcp"}).Draw(t, "scheme")
-			p.Upstreams = append(p.Upstreams, c07Upstream{Tag: c07Tags[i], URL: sch + "://" + net.JoinHostPort(s.host, strconv.Itoa(s.port)), Host: s.host})
-			slotOf[c07Tags[i]] = i
+			var u c07Up
+			for try := 0; try < 20; try++ {
+				slot := rapid.IntRange(0, nSlots-1).Draw(t, "slot")
+				if share && i > 0 && rapid.IntRange(0, 2).Draw(t, "sameslot") > 0 {
+					slot = ups[c07Tags[rapid.IntRange(0, i-1).Draw(t, "shareWith")]].Slot
+				}
+				kind := rapid.SampledFrom([]string{"udp", "udp", "tcp", "tcp", "tcp+udp", "h:/a", "h:/b"}).Draw(t, "kind")
+				cand := c07Up{Tag: c07Tags[i], Slot: slot, Kind: kind}
+				free := true
+				for _, pr := range cand.protos() {
+					free = free && !used[strconv.Itoa(slot)+"/"+pr]
+				}
+				if free {
+					u = cand
+					break
+				}
+			}
+			if u.Tag == "" {
+				break
+			}
+			for _, pr := range u.protos() {
+				used[strconv.Itoa(u.Slot)+"/"+pr] = true
+			}
+			s := farm.slots[u.Slot]
+			hp := net.JoinHostPort(s.host, strconv.Itoa(s.port))
+			url := u.Kind + "://" + hp
+			switch {
+			case strings.HasPrefix(u.Kind, "h:"):
+				url = "https://" + hp + strings.TrimPrefix(u.Kind, "h:")
+			case u.Kind == "tcp+udp" && rapid.Bool().Draw(t, "alias"):
+				url = "udp+tcp://" + hp
+			}
+			ups[u.Tag] = u
+			p.Upstreams = append(p.Upstreams, c07Upstream{Tag: u.Tag, URL: url, Host: s.host})
+		}
+		nUp = len(p.Upstreams)
+		sharedEndpoint := false
+		for _, a := range ups {
+			for _, b := range ups {
+				sharedEndpoint = sharedEndpoint || (a.Tag != b.Tag && a.Slot == b.Slot)
+			}
 		}
 		o := &c07GenOpts{Names: nil, AvoidNegMerge: c07KnownNegMerge(), AvoidV6Zero: true, MaxRules: 6,
 			Excluded: func(id string) {
@@ -511,117 +633,167 @@ func TestC07_Router(t *testing.T) {
 		var ntKey strings.Builder
 		restart := false
 		farm.take()
-		// questions that already reached a server through this router: the Router
-		// de-duplicates identical in-flight lookups and may hand a just-finished
-		// result to the next identical lookup without asking again.
+		// questions that already reached a server (same port, same transport) through
+		// this router: the Router de-duplicates identical in-flight lookups and may hand
+		// a just-finished result to the next identical lookup without asking again.
 		earlier := map[string]bool{}
-
-		// judge one lookup. forced != "": a selector chose that upstream for all questions.
-		var started time.Time
-		judge := func(what string, nk c07Net, host string, forced string, ips []net.IPAddr, lerr error, baseCalls int) {
-			slow := time.Since(started) > 4*time.Second // an internal per-question timeout may have fired: inconclusive
-			seen := farm.take()
-			totalLookups++
-			fq := dnsmessage.Fqdn(host)
-			route := func(qt uint16) string {
-				if forced != "" {
-					return forced
-				}
-				out, _ := c07RefRequest(p, host, qt)
-				return out
+		ekey := func(slot int, proto, name string, qt uint16) string {
+			return fmt.Sprintf("%d|%s|%s|%d", slot, proto, strings.ToLower(dnsmessage.Fqdn(name)), qt)
+		}
+		route := func(l *c07Lookup, qt uint16) string {
+			if l.Forced != "" {
+				return l.Forced
 			}
-			// soundness
+			out, _ := c07RefRequest(p, l.Host, qt)
+			return out
+		}
+
+		// judge a group of lookups that ran together (a group of one = sequential).
+		judge := func(group []*c07Lookup) {
+			seen := farm.take()
+			totalLookups += len(group)
+			what := group[0].What
+			if len(group) > 1 {
+				ws := make([]string, len(group))
+				for i, l := range group {
+					ws[i] = l.What
+				}
+				what = "concurrently{" + strings.Join(ws, " | ") + "}"
+			}
+			// soundness: every arrival is explained by a lookup of the group whose
+			// rule names an upstream on that port reached over that transport
 			for _, s := range seen {
-				if !strings.EqualFold(s.Name, fq) {
-					t.Fatalf("%s: upstream %s received a question for %q, the lookup was for %q\n%s", what, c07Tags[s.Slot], s.Name, host, p)
-				}
 				if s.QType != dnsmessage.TypeA && s.QType != dnsmessage.TypeAAAA {
-					t.Fatalf("%s: upstream %s received qtype %d", what, c07Tags[s.Slot], s.QType)
+					t.Fatalf("%s: server %d received qtype %d", what, s.Slot, s.QType)
 				}
-				want := route(s.QType)
-				if want != c07Tags[s.Slot] {
-					t.Fatalf("%s: question (%s, qtype %d) was sent to upstream %s; the first matching request rule names %q\n%s", what, s.Name, s.QType, c07Tags[s.Slot], want, p)
+				okName, explained := false, false
+				var named []string
+				for _, l := range group {
+					if !strings.EqualFold(s.Name, dnsmessage.Fqdn(l.Host)) {
+						continue
+					}
+					okName = true
+					out := route(l, s.QType)
+					named = append(named, out)
+					if u, isUp := ups[out]; isUp && u.Slot == s.Slot && u.admits(s.Proto) {
+						explained = true
+					}
 				}
-				earlier[fmt.Sprintf("%d|%s|%d", s.Slot, strings.ToLower(s.Name), s.QType)] = true
+				if !okName {
+					t.Fatalf("%s: server %d received a question for %q that nobody looked up\n%s", what, s.Slot, s.Name, p)
+				}
+				if !explained {
+					t.Fatalf("%s: question (%s, qtype %d) arrived at server %d over %s; the first matching request rule / selector names %q (upstreams: %+v)\n%s", what, s.Name, s.QType, s.Slot, s.Proto, named, ups, p)
+				}
 				classes["question_qtype_"+strconv.Itoa(int(s.QType))] = true
 				classes["proto_"+s.Proto] = true
 			}
-			if c07Inconclusive(lerr) || slow {
-				totalInconclusive++
+			inconclusive := false
+			for _, l := range group {
+				if c07Inconclusive(l.Err) || l.Took > 4*time.Second {
+					inconclusive = true
+				}
+			}
+			for _, s := range seen {
+				earlier[ekey(s.Slot, s.Proto, s.Name, s.QType)] = true
+			}
+			if inconclusive {
+				totalInconclusive += len(group)
 				restart = true
 				classes["inconclusive_timeout"] = true
 				return
 			}
-			// completeness + result
-			got := c07AddrSet(ips)
-			allowed := map[netip.Addr]bool{}
-			anyUpstream, wantAddrs := false, 0
-			for _, qt := range []uint16{dnsmessage.TypeA, dnsmessage.TypeAAAA} {
-				out := route(qt)
-				required := false
-				for _, r := range nk.Required {
-					required = required || r == qt
-				}
-				if out == "asis" || out == "reject" {
-					if required {
-						classes["required_question_"+out] = true
+			for _, l := range group {
+				got := c07AddrSet(l.IPs)
+				allowed := map[netip.Addr]bool{}
+				wantAddrs := 0
+				anyUpstream := false
+				for _, qt := range []uint16{dnsmessage.TypeA, dnsmessage.TypeAAAA} {
+					out := route(l, qt)
+					required := false
+					for _, r := range l.Net.Required {
+						required = required || r == qt
 					}
-					continue
-				}
-				slot := slotOf[out]
-				ans := c07SlotAnswers(slot, host, qt)
-				for _, a := range ans {
-					allowed[a] = true
-				}
-				if !required {
-					continue
-				}
-				anyUpstream = true
-				ek := fmt.Sprintf("%d|%s|%d", slot, strings.ToLower(fq), qt)
-				arrived := earlier[ek]
-				if arrived {
-					classes["dedup_window_possible"] = true
-				}
-				for _, s := range seen {
-					arrived = arrived || (s.Slot == slot && s.QType == qt)
-				}
-				if !arrived {
-					t.Fatalf("%s: question (%s, qtype %d) is routed to %q by the request rules but never arrived there (arrived: %+v, err=%v)\n%s", what, host, qt, out, seen, lerr, p)
-				}
-				wantAddrs += len(ans)
-				for _, a := range ans {
-					if got[a] == 0 {
-						t.Fatalf("%s: answer %v of %q for qtype %d is missing from the result %v (err=%v)\n%s", what, a, out, qt, ips, lerr, p)
+					u, isUp := ups[out]
+					if !isUp {
+						if required {
+							classes["required_question_"+out] = true
+						}
+						continue
+					}
+					for _, pr := range u.protos() {
+						for _, a := range c07SlotAnswers(u.Slot, pr, l.Host, qt) {
+							allowed[a] = true
+						}
+					}
+					if !required {
+						continue
+					}
+					anyUpstream = true
+					// completeness: it arrived at that upstream (port AND transport) —
+					// now, or earlier in this case (sharing between lookups the rules
+					// send to the same upstream is fine)
+					arrived, viaProto := false, ""
+					for _, pr := range u.protos() {
+						if earlier[ekey(u.Slot, pr, l.Host, qt)] {
+							arrived, viaProto = true, pr
+							break
+						}
+					}
+					if !arrived {
+						t.Fatalf("%s: question (%s, qtype %d) of %s is routed to %q (%+v) but never arrived there (arrived now: %+v, err=%v)\n%s", what, l.Host, qt, l.What, out, u, seen, l.Err, p)
+					}
+					// its answer (which names port and transport) is in the result
+					okAns := false
+					var wantSet []netip.Addr
+					for _, pr := range u.protos() {
+						if !earlier[ekey(u.Slot, pr, l.Host, qt)] {
+							continue
+						}
+						ans := c07SlotAnswers(u.Slot, pr, l.Host, qt)
+						wantSet = ans
+						all := true
+						for _, a := range ans {
+							all = all && got[a] > 0
+						}
+						if all {
+							okAns = true
+							wantAddrs += len(ans)
+							break
+						}
+					}
+					if !okAns {
+						t.Fatalf("%s: the answer %v of %q (%+v, asked over %s) for (%s, qtype %d) is missing from the result %v of %s (err=%v)\n%s", what, wantSet, out, u, viaProto, l.Host, qt, l.IPs, l.What, l.Err, p)
 					}
 				}
-			}
-			for a := range got {
-				if a == netip.MustParseAddr("192.0.2.99") && baseCalls > 0 {
-					continue // the base resolver's marker (pass-through), not an upstream answer
+				for a := range got {
+					if a == netip.MustParseAddr("192.0.2.99") && l.Base > 0 {
+						continue // the base resolver's marker (pass-through), not an upstream answer
+					}
+					if !allowed[a] {
+						t.Fatalf("%s: the result of %s contains %v, which the upstream the rules name for it would not answer (result %v, arrived %+v, upstreams %+v)\n%s", what, l.What, a, l.IPs, seen, ups, p)
+					}
 				}
-				if !allowed[a] {
-					t.Fatalf("%s: result contains %v, which no upstream the rules name for this lookup would answer (result %v, arrived %+v)\n%s", what, a, ips, seen, p)
+				if wantAddrs > 0 && l.Err != nil {
+					t.Fatalf("%s: %s failed (%v) although the rules send a required question to an upstream that answers with addresses\n%s", what, l.What, l.Err, p)
 				}
-			}
-			if wantAddrs > 0 && lerr != nil {
-				t.Fatalf("%s: lookup failed (%v) although the rules send a required question to an upstream that answers with addresses\n%s", what, lerr, p)
-			}
-			if !anyUpstream && len(seen) == 0 {
-				classes["all_required_passthrough"] = true
-			}
-			if forced == "" {
-				ra, ia := c07RefRequest(p, host, dnsmessage.TypeA)
-				rb, ib := c07RefRequest(p, host, dnsmessage.TypeAAAA)
-				if ra != rb {
-					classes["a_and_aaaa_routed_differently"] = true
+				if !anyUpstream {
+					classes["all_required_passthrough"] = true
 				}
-				if ia >= 0 || ib >= 0 {
-					fmt.Fprintf(&ntKey, "%s/%s>%d,%d;", nk.Name, strings.ToLower(host), ia, ib)
+				if l.Forced == "" {
+					ra, ia := c07RefRequest(p, l.Host, dnsmessage.TypeA)
+					rb, ib := c07RefRequest(p, l.Host, dnsmessage.TypeAAAA)
+					if ra != rb {
+						classes["a_and_aaaa_routed_differently"] = true
+					}
+					if ia >= 0 || ib >= 0 {
+						fmt.Fprintf(&ntKey, "%s/%s>%d,%d;", l.Net.Name, strings.ToLower(l.Host), ia, ib)
+					}
+				} else {
+					fmt.Fprintf(&ntKey, "%s/%s>sel:%s;", l.Net.Name, strings.ToLower(l.Host), l.Forced)
 				}
-			} else {
-				fmt.Fprintf(&ntKey, "%s/%s>sel:%s;", nk.Name, strings.ToLower(host), forced)
+				classes["net_"+l.Net.Name] = true
 			}
-			classes["net_"+nk.Name] = true
 		}
 
 		ctx, cancel := context.WithTimeout(context.Background(), 60*time.Second)
@@ -648,17 +820,18 @@ func TestC07_Router(t *testing.T) {
 		}
 
 		// ---- (1) plain lookups through the request rules
-		nl := rapid.IntRange(2, 6).Draw(t, "nlookups")
+		nl := rapid.IntRange(2, 5).Draw(t, "nlookups")
 		for k := 0; k < nl; k++ {
-			nk := rapid.SampledFrom(nets).Draw(t, "net")
-			host := genHost()
-			started = time.Now()
-			ips, lerr := router.LookupIPAddr(ctx, "", nk.Network, host)
-			judge(fmt.Sprintf("LookupIPAddr(%q, %q)", nk.Name, host), nk, host, "", ips, lerr, 0)
+			l := &c07Lookup{Net: rapid.SampledFrom(nets).Draw(t, "net"), Host: genHost()}
+			l.What = fmt.Sprintf("LookupIPAddr(%q, %q)", l.Net.Name, l.Host)
+			st := time.Now()
+			l.IPs, l.Err = router.LookupIPAddr(ctx, "", l.Net.Network, l.Host)
+			l.Took = time.Since(st)
+			judge([]*c07Lookup{l})
 		}
 
 		// ---- (2) selectors
-		nm := rapid.IntRange(1, 4).Draw(t, "nmetas")
+		nm := rapid.IntRange(1, 3).Draw(t, "nmetas")
 		for k := 0; k < nm; k++ {
 			m := c07Meta{Name: rapid.SampledFrom(c07NodeNames).Draw(t, "mname"), Link: rapid.SampledFrom(c07Links).Draw(t, "mlink")}
 			if rapid.Bool().Draw(t, "msub") {
@@ -694,15 +867,66 @@ func TestC07_Router(t *testing.T) {
 			if !ok {
 				t.Fatalf("wrapped node dialer does not resolve through the router (%T)", wrapped)
 			}
-			nk := rapid.SampledFrom(nets).Draw(t, "wnet")
-			host := genHost()
-			started = time.Now()
-			ips, lerr := res.LookupIPAddr(ctx, nk.Network, host)
-			forced := ""
+			l := &c07Lookup{Net: rapid.SampledFrom(nets).Draw(t, "wnet"), Host: genHost()}
 			if okN {
-				forced = wantN
+				l.Forced = wantN
 			}
-			judge(fmt.Sprintf("WrapNodeDialer(%+v).LookupIPAddr(%q, %q)", m, nk.Name, host), nk, host, forced, ips, lerr, base.calls)
+			l.What = fmt.Sprintf("WrapNodeDialer(%+v).LookupIPAddr(%q, %q)", m, l.Net.Name, l.Host)
+			st := time.Now()
+			l.IPs, l.Err = res.LookupIPAddr(ctx, l.Net.Network, l.Host)
+			l.Took = time.Since(st)
+			l.Base = base.calls
+			judge([]*c07Lookup{l})
+		}
+
+		// ---- (3) concurrent lookups: 2-4 goroutines released together, same and
+		// different names, via the request rules or via a selector-chosen (named)
+		// upstream — the way node()/sub() rules direct dae's own lookups. Servers
+		// answer a little late so the lookups are in flight together.
+		ng := rapid.IntRange(1, 3).Draw(t, "ngroups")
+		for g := 0; g < ng; g++ {
+			n := rapid.IntRange(2, 4).Draw(t, "gsize")
+			hosts := []string{genHost()}
+			if rapid.Bool().Draw(t, "twohosts") {
+				hosts = append(hosts, genHost())
+			}
+			group := make([]*c07Lookup, n)
+			forcedSet := map[string]bool{}
+			for i := range group {
+				l := &c07Lookup{Net: rapid.SampledFrom(nets).Draw(t, "gnet"), Host: rapid.SampledFrom(hosts).Draw(t, "ghost")}
+				if rapid.IntRange(0, 3).Draw(t, "gforced") > 0 {
+					l.Forced = rapid.SampledFrom(p.Upstreams).Draw(t, "gtag").Tag
+					forcedSet[l.Forced+"|"+strings.ToLower(dnsmessage.Fqdn(l.Host))] = true
+				}
+				l.What = fmt.Sprintf("LookupIPAddr(upstream=%q, %q, %q)", l.Forced, l.Net.Name, l.Host)
+				group[i] = l
+			}
+			// do two members ask the same name at different upstreams on one host:port?
+			for i, a := range group {
+				for _, b := range group[i+1:] {
+					if a.Forced != "" && b.Forced != "" && a.Forced != b.Forced && strings.EqualFold(dnsmessage.Fqdn(a.Host), dnsmessage.Fqdn(b.Host)) && ups[a.Forced].Slot == ups[b.Forced].Slot {
+						classes["concurrent_same_name_same_endpoint_other_transport"] = true
+					}
+				}
+			}
+			c07ReplyDelay.Store(int64(rapid.SampledFrom([]time.Duration{5 * time.Millisecond, 20 * time.Millisecond, 40 * time.Millisecond}).Draw(t, "delay")))
+			gate := make(chan struct{})
+			var wg sync.WaitGroup
+			for _, l := range group {
+				wg.Add(1)
+				go func(l *c07Lookup) {
+					defer wg.Done()
+					<-gate
+					st := time.Now()
+					l.IPs, l.Err = router.LookupIPAddr(ctx, l.Forced, l.Net.Network, l.Host)
+					l.Took = time.Since(st)
+				}(l)
+			}
+			close(gate)
+			wg.Wait()
+			c07ReplyDelay.Store(0)
+			classes["concurrent_group"] = true
+			judge(group)
 		}
 
 		if restart {
@@ -719,6 +943,9 @@ func TestC07_Router(t *testing.T) {
 			key = p.String() + "#" + ntKey.String()
 		}
 		cl := []string{fmt.Sprintf("upstreams_%d", nUp)}
+		if sharedEndpoint {
+			cl = append(cl, "upstreams_share_host_port")
+		}
 		for c := range classes {
 			cl = append(cl, c)
 		}
